@@ -30,7 +30,7 @@ def _e2e_obligations():
 
 SPEC = dict(
     extra_obligations={"thorough": _e2e_obligations},
-    extra_obligations_name="coq/e2e/E2E.v: end-to-end composition of C05, C04, C01, C08, C07 with the scanner model",
+    extra_obligations_name="coq/e2e (E2E.v, E2EStat.v, E2EPyCore.v, E2EPadding.v): end-to-end composition of C05, C04, C01, C08, C07 with the scanner model",
     extra_obligations_cmd="make -C coq/e2e (and imported groups) + Print Assumptions audit of LME2E.E2E",
     id="C03",
     group="scan",
